@@ -15,8 +15,8 @@ import (
 
 func init() {
 	eng.Register(&eng.Check{
-		ID: "C16",
-		Rule: "E2 print-then-parse: (F1) every match operator x selector paths x literals x EVERY combination of selector spelling (dotted / bracket / JSON pointer), literal style (bare / double-quoted / backtick where legal), in/contains spelling and whitespace style (minimal, one blank, tab-newline-blank, CR-LF); (F2) ALL trees of depth<=2 over 3 leaves and depth 3 over 2 leaves (thorough: 3 leaves), plus and/or chains of 4..7 operands in right-nested, left-nested, balanced and mixed shapes, built from not/and/or and any/all with the 4 binding modes, rendered by a precedence-aware printer that inserts only the required parentheses, in every one of: minimal form, each single node with 1 or 2 redundant parenthesis pairs, every node with one redundant pair (nesting capped at 4), `not not` inserted at each single node, x 4 whitespace styles; (F3) literal fidelity: ALL strings of length<=3 (thorough <=4) over {a / ~ \" ` \\ blank newline CR NUL e-acute 0 - .} in every legal quoting (double-quoted via escapes, backtick, alternative escape spellings); oracle: the parsed tree equals the printed tree (operators, paths, selector type of the chosen spelling, literal text, binding mode and names, shape, `not not e` = e), the literal text equals the string spelled, and `X == <quoted s>` / `<quoted s> in X` are true of X = s. Distinct by construction; non-trivial = rendering with at least one optional choice exercised (everything except the first canonical form of each tree).",
+		ID:          "C16",
+		Rule:        "E2 print-then-parse: (F1) every match operator x selector paths x literals x EVERY combination of selector spelling (dotted / bracket / JSON pointer), literal style (bare / double-quoted / backtick where legal), in/contains spelling and whitespace style (minimal, one blank, tab-newline-blank, CR-LF); (F2) ALL trees of depth<=2 over 3 leaves and depth 3 over 2 leaves (thorough: 3 leaves), plus and/or chains of 4..7 operands in right-nested, left-nested, balanced and mixed shapes, built from not/and/or and any/all with the 4 binding modes, rendered by a precedence-aware printer that inserts only the required parentheses, in every one of: minimal form, each single node with 1 or 2 redundant parenthesis pairs, every node with one redundant pair (nesting capped at 4), `not not` inserted at each single node, x 4 whitespace styles; (F3) literal fidelity: ALL strings of length<=3 (thorough <=4) over {a / ~ \" ` \\ blank newline CR NUL e-acute 0 - .} in every legal quoting (double-quoted via escapes, backtick, alternative escape spellings); oracle: the parsed tree equals the printed tree (operators, paths, selector type of the chosen spelling, literal text, binding mode and names, shape, `not not e` = e), the literal text equals the string spelled, and `X == <quoted s>` / `<quoted s> in X` are true of X = s. Distinct by construction; non-trivial = rendering with at least one optional choice exercised (everything except the first canonical form of each tree).",
 		Assumptions: []string{"the printer is the harness's (it is the property's premise): only parentheses required by not > and > or / right grouping are emitted", "bounded tree depth and string alphabet"},
 		Run:         runC16,
 	})
